@@ -86,6 +86,7 @@ class Mod:
                 names.split_return_ifexp(self.tree)
                 names.split_default_ifexp(self.tree)
                 names.unguard_continue(self.tree)
+                names.canon_while_true(self.tree)
                 names.unroll_fold_helpers(self.tree, rel)
                 self.inlined = names.inline_new_helpers(self.tree, rel)
                 if self.inlined:
